@@ -160,8 +160,9 @@ struct Spec {
 	int nbones = 0;
 	bool eye = false;
 	bool raw_vert_weights = false; // hand every influence to SetShapeVertWeights instead of the four strongest
+	int partflags = 0;			   // skin partitions: 0 as rebuilt (weights and bone indices), 1 bone indices only, 2 weights only (the format keeps both flags independent)
 	std::string label() const {
-		return std::string(kind_id(kind)) + "/" + game_name(game) + "/" + (skinned ? "skinned" : "static") + (eye ? "+eye" : "");
+		return std::string(kind_id(kind)) + "/" + game_name(game) + "/" + (skinned ? "skinned" : "static") + (eye ? "+eye" : "") + (partflags == 1 ? "+partition-boneindices-only" : partflags == 2 ? "+partition-weights-only" : "");
 	}
 };
 
@@ -370,6 +371,15 @@ inline NiShape* build_shape(NifFile& nif, const Spec& sp, const Mesh& m, const W
 		if (shape->SkinInstanceRef()->IsEmpty()) { if (err) *err = "no skin instance"; return nullptr; }
 		if (w) set_weights(nif, shape, sp.nbones, *w, sp.raw_vert_weights);
 		nif.UpdateSkinPartitions(shape);
+		if (sp.partflags) {
+			auto inst = hdr.GetBlock<NiSkinInstance>(shape->SkinInstanceRef());
+			auto part = inst ? hdr.GetBlock(inst->skinPartitionRef) : nullptr;
+			if (part)
+				for (auto& p : part->partitions) {
+					if (sp.partflags == 1) { p.hasVertexWeights = false; p.vertexWeights.clear(); }
+					if (sp.partflags == 2) { p.hasBoneIndices = false; p.boneIndices.clear(); }
+				}
+		}
 	}
 	if (sp.locked) {
 		auto ed = std::make_unique<NiIntegersExtraData>();
@@ -439,6 +449,7 @@ struct Snap {
 	bool is_list = false;		 // triangles stored as a list (otherwise derived from strips)
 	std::vector<Triangle> tris;
 	bool partition_order = false; // SSE skinned: a reload lists triangles partition by partition
+	size_t nparts = 0;			  // skin partitions
 };
 template<class T>
 inline std::string bytes_of(const T& v) { return std::string((const char*) &v, sizeof(T)); }
@@ -502,6 +513,22 @@ inline Snap snapshot(NifFile& nif, NiShape* shape) {
 				a.push_back(x);
 			}
 		}
+	}
+	if (sk.part && !sk.part->partitions.empty()) {
+		// per vertex: its row (weights, bone slots) in every partition that lists it, in partition order
+		std::vector<std::string> rows(s.nv);
+		bool any = false;
+		for (auto& p : sk.part->partitions)
+			for (size_t i = 0; i < p.vertexMap.size(); i++) {
+				uint16_t v = p.vertexMap[i];
+				if (v >= s.nv) continue;
+				any = true;
+				rows[v] += 'P';
+				rows[v] += p.hasVertexWeights && i < p.vertexWeights.size() ? bytes_of(p.vertexWeights[i]) : std::string(sizeof(VertexWeight), '-');
+				rows[v] += p.hasBoneIndices && i < p.boneIndices.size() ? bytes_of(p.boneIndices[i]) : std::string(sizeof(BoneIndices), '-');
+			}
+		s.nparts = sk.part->partitions.size();
+		if (any) s.attr["partrows"] = rows;
 	}
 	s.partition_order = bs && hdr.GetVersion().IsSSE() && sk.part;
 	return s;
